@@ -69,10 +69,47 @@ namespace occa {
       }
 
       void openmpParser::setupAtomics() {
+        // [omp atomic] and [omp critical] don't exclude each other: if some @atomic
+        // needs a critical region, the basic updates have to use one as well,
+        // otherwise updates of a location touched by both kinds are lost
+        bool needsCritical = false;
+        statementArray::from(root)
+          .flatFilterByStatementType(
+            statementType::expression | statementType::block,
+            "atomic"
+          )
+          .forEach([&](statement_t *smnt) {
+              if ((smnt->type() & statementType::block)
+                  && (((blockStatement*) smnt)->size() == 1)) {
+                smnt = (*((blockStatement*) smnt))[0];
+              }
+              needsCritical |= !(
+                (smnt->type() & statementType::expression)
+                && attributes::atomic::isBasicExpression((expressionStatement&) *smnt)
+              );
+            });
+
+        if (!needsCritical) {
+          success &= attributes::atomic::applyCodeTransformation(
+            root,
+            transformBlockStatement,
+            transformBasicExpressionStatement
+          );
+          return;
+        }
+
         success &= attributes::atomic::applyCodeTransformation(
           root,
           transformBlockStatement,
-          transformBasicExpressionStatement
+          [](expressionStatement &exprSmnt) -> bool {
+            blockStatement &parent = *(exprSmnt.up);
+            blockStatement &blockSmnt = *(
+              new blockStatement(&parent, exprSmnt.source)
+            );
+            exprSmnt.replaceWith(blockSmnt);
+            blockSmnt.add(exprSmnt);
+            return transformBlockStatement(blockSmnt);
+          }
         );
       }
 
